@@ -344,7 +344,12 @@ def run_case(case, drv):
             except Exception as ex:  # noqa
                 res.fail("rvs:raises", f"sampling {tokens(e)} with a zero in a denominator raised {ex!r}")
                 return res
-        if np.shape(got_np) != (m,) or not np.array_equal(np.asarray(got_np, dtype=float), np.asarray(want_np, dtype=float), equal_nan=True):
+        ga, wa = np.asarray(got_np, dtype=float), np.asarray(want_np, dtype=float)
+        # (finite entries must agree exactly; where a zero was divided by, both sides must be non-finite — the SIGN of an infinity
+        # depends on the sign of a floating-point zero, which numpy's own reductions do not preserve (x - 0 for x = -0.0), and nan / inf
+        # depend on it in turn: not part of the property)
+        same = np.shape(got_np) == (m,) and ga.shape == wa.shape and bool(np.all(np.where(np.isfinite(wa) & np.isfinite(ga), ga == wa, ~np.isfinite(wa) & ~np.isfinite(ga))))
+        if not same:
             res.fail("rvs:value-zero-denominator", f"{tokens(e)}: got {list(np.asarray(got_np).ravel())}, the expression on the leaf arrays gives {list(np.asarray(want_np).ravel())} "
                                                    "(division by a zero draw is inf / nan, as for any numpy array)")
         res.nontrivial = False
